@@ -110,7 +110,7 @@ type MPlaneBaseRenamed struct {
 	Bases    []air.Airport `capnp:"homes"`
 	Stars    int64         `capnp:"rating"`
 	CanFly   bool
-	Internal int `capnp:"-"`
+	Internal int     `capnp:"-"`
 	Seats    int64   `capnp:"capacity"`
 	MaxSpeed float64 `capnp:"maxSpeed"`
 }
@@ -127,6 +127,40 @@ type MPlaneBaseEmbedPtr struct {
 	Name string
 	*MPlaneStats
 	Homes []air.Airport
+}
+
+// MPlaneBaseEmbedDeep: anonymous struct fields nested four levels deep (field
+// index paths of length 5; every sibling of the innermost struct is mapped).
+type MDeep3 struct{ MPlaneStats }
+type MDeep2 struct{ MDeep3 }
+type MDeep1 struct{ MDeep2 }
+type MPlaneBaseEmbedDeep struct {
+	Name string
+	MDeep1
+	Homes []air.Airport
+}
+
+// Leaf paths of length 4 and 3 as well.
+type MDeepB2 struct{ MPlaneStats }
+type MDeepB1 struct{ MDeepB2 }
+type MPlaneBaseEmbedDeep4 struct {
+	Name string
+	MDeepB1
+	Homes []air.Airport
+}
+type MDeepC1 struct{ MPlaneStats }
+type MPlaneBaseEmbedDeep3 struct {
+	Name string
+	MDeepC1
+	Homes []air.Airport
+}
+
+// MTwoPtrs names only the two pointer fields that VerTwoPtr (ordinals 0, 1)
+// and VerTwoDataTwoPtr (ordinals 2, 3) have in common: one Go type mapped to
+// two schema nodes in the same process.
+type MTwoPtrs struct {
+	Ptr1 *MVerOneData
+	Ptr2 *MVerOneData
 }
 
 // MIgnoredStats is embedded with tag "-" and must be ignored although its
@@ -323,6 +357,7 @@ var airWrap = map[string]func(capnp.Struct) interface{}{
 	"EchoBase":         func(s capnp.Struct) interface{} { return air.EchoBase{Struct: s} },
 	"VerTwoTwoPlus":    func(s capnp.Struct) interface{} { return air.VerTwoTwoPlus{Struct: s} },
 	"VerTwoDataTwoPtr": func(s capnp.Struct) interface{} { return air.VerTwoDataTwoPtr{Struct: s} },
+	"VerTwoPtr":        func(s capnp.Struct) interface{} { return air.VerTwoPtr{Struct: s} },
 	"VerOneData":       func(s capnp.Struct) interface{} { return air.VerOneData{Struct: s} },
 	"Regression":       func(s capnp.Struct) interface{} { return air.Regression{Struct: s} },
 }
@@ -439,7 +474,15 @@ func airSubjects() []*subject {
 			"rating": "MPlaneStats.Rating", "canFly": "MPlaneStats.CanFly", "capacity": "MPlaneStats.Capacity", "maxSpeed": "MPlaneStats.MaxSpeed"}},
 		"MPlaneBaseEmbedPtr": {proto: MPlaneBaseEmbedPtr{}, nodeID: air.PlaneBase_TypeID, spec: map[string]string{
 			"rating": "MPlaneStats.Rating", "canFly": "MPlaneStats.CanFly", "capacity": "MPlaneStats.Capacity", "maxSpeed": "MPlaneStats.MaxSpeed"}},
-		"MPlaneBaseEmbedIgnored": {proto: MPlaneBaseEmbedIgnored{}, nodeID: air.PlaneBase_TypeID},
+		"MPlaneBaseEmbedDeep": {proto: MPlaneBaseEmbedDeep{}, nodeID: air.PlaneBase_TypeID, spec: map[string]string{
+			"rating": "MDeep1.MDeep2.MDeep3.MPlaneStats.Rating", "canFly": "MDeep1.MDeep2.MDeep3.MPlaneStats.CanFly", "capacity": "MDeep1.MDeep2.MDeep3.MPlaneStats.Capacity", "maxSpeed": "MDeep1.MDeep2.MDeep3.MPlaneStats.MaxSpeed"}},
+		"MPlaneBaseEmbedDeep4": {proto: MPlaneBaseEmbedDeep4{}, nodeID: air.PlaneBase_TypeID, spec: map[string]string{
+			"rating": "MDeepB1.MDeepB2.MPlaneStats.Rating", "canFly": "MDeepB1.MDeepB2.MPlaneStats.CanFly", "capacity": "MDeepB1.MDeepB2.MPlaneStats.Capacity", "maxSpeed": "MDeepB1.MDeepB2.MPlaneStats.MaxSpeed"}},
+		"MPlaneBaseEmbedDeep3": {proto: MPlaneBaseEmbedDeep3{}, nodeID: air.PlaneBase_TypeID, spec: map[string]string{
+			"rating": "MDeepC1.MPlaneStats.Rating", "canFly": "MDeepC1.MPlaneStats.CanFly", "capacity": "MDeepC1.MPlaneStats.Capacity", "maxSpeed": "MDeepC1.MPlaneStats.MaxSpeed"}},
+		"MTwoPtrsOnVerTwoPtr":        {proto: MTwoPtrs{}, nodeID: air.VerTwoPtr_TypeID, subs: map[string]string{"ptr1": "MVerOneData", "ptr2": "MVerOneData"}},
+		"MTwoPtrsOnVerTwoDataTwoPtr": {proto: MTwoPtrs{}, nodeID: air.VerTwoDataTwoPtr_TypeID, subs: map[string]string{"ptr1": "MVerOneData", "ptr2": "MVerOneData"}},
+		"MPlaneBaseEmbedIgnored":     {proto: MPlaneBaseEmbedIgnored{}, nodeID: air.PlaneBase_TypeID},
 		"MPlaneBaseConflict": {proto: MPlaneBaseConflict{}, nodeID: air.PlaneBase_TypeID, spec: map[string]string{
 			"canFly": "MRatingA.CanFly", "capacity": "MRatingB.Capacity"}},
 		"MPlaneBaseTaggedWins": {proto: MPlaneBaseTaggedWins{}, nodeID: air.PlaneBase_TypeID, spec: map[string]string{
@@ -448,24 +491,24 @@ func airSubjects() []*subject {
 			"canFly": "MPlaneStats.CanFly", "capacity": "MPlaneStats.Capacity", "maxSpeed": "MPlaneStats.MaxSpeed"}},
 		"MB737Named": {proto: MB737Named{}, nodeID: air.B737_TypeID, noAuto: true, spec: map[string]string{"base": "MPlaneBase"},
 			subs: map[string]string{"base": "MPlaneBase"}},
-		"MAircraft": {proto: MAircraft{}, nodeID: air.Aircraft_TypeID, subs: map[string]string{"b737": "MB737", "a320": "MB737A", "f16": "MB737F"}},
-		"MB737":     {proto: MB737{}, nodeID: air.B737_TypeID, subs: map[string]string{"base": "MPlaneBase"}},
-		"MB737A":    {proto: MB737{}, nodeID: air.A320_TypeID, subs: map[string]string{"base": "MPlaneBase"}},
-		"MB737F":    {proto: MB737{}, nodeID: air.F16_TypeID, subs: map[string]string{"base": "MPlaneBase"}},
-		"MZF64":     {proto: MZF64{}, nodeID: air.Z_TypeID, hasFixed: true, fixed: int(air.Z_Which_f64)},
-		"MDefaults": {proto: MDefaults{}, nodeID: air.Defaults_TypeID},
-		"MStackingRoot": {proto: MStackingRoot{}, nodeID: air.StackingRoot_TypeID, subs: map[string]string{"a": "MStackingA", "aWithDefault": "MStackingA"}},
-		"MStackingA":    {proto: MStackingA{}, nodeID: air.StackingA_TypeID, subs: map[string]string{"b": "MStackingB"}},
-		"MStackingB":    {proto: MStackingB{}, nodeID: air.StackingB_TypeID},
-		"MHoldsText":    {proto: MHoldsText{}, nodeID: air.HoldsText_TypeID},
-		"MNester":       {proto: MNester{}, nodeID: air.Nester1Capn_TypeID},
-		"MRWTest":       {proto: MRWTest{}, nodeID: air.RWTestCapn_TypeID, subs: map[string]string{"nestMatrix": "MNester"}},
-		"MCounter":      {proto: MCounter{}, nodeID: air.Counter_TypeID},
-		"MBag":          {proto: MBag{}, nodeID: air.Bag_TypeID, subs: map[string]string{"counter": "MCounter"}},
-		"MVoidUnion":    {proto: MVoidUnion{}, nodeID: air.VoidUnion_TypeID},
-		"MHoth":         {proto: MHoth{}, nodeID: air.Hoth_TypeID, subs: map[string]string{"base": "MEchoBase"}},
-		"MEchoBase":     {proto: MEchoBase{}, nodeID: air.EchoBase_TypeID},
-		"MVerTwoTwoPlus": {proto: MVerTwoTwoPlus{}, nodeID: air.VerTwoTwoPlus_TypeID, subs: map[string]string{"ptr1": "MVerTwoDataTwoPtr", "ptr2": "MVerTwoDataTwoPtr"}},
+		"MAircraft":         {proto: MAircraft{}, nodeID: air.Aircraft_TypeID, subs: map[string]string{"b737": "MB737", "a320": "MB737A", "f16": "MB737F"}},
+		"MB737":             {proto: MB737{}, nodeID: air.B737_TypeID, subs: map[string]string{"base": "MPlaneBase"}},
+		"MB737A":            {proto: MB737{}, nodeID: air.A320_TypeID, subs: map[string]string{"base": "MPlaneBase"}},
+		"MB737F":            {proto: MB737{}, nodeID: air.F16_TypeID, subs: map[string]string{"base": "MPlaneBase"}},
+		"MZF64":             {proto: MZF64{}, nodeID: air.Z_TypeID, hasFixed: true, fixed: int(air.Z_Which_f64)},
+		"MDefaults":         {proto: MDefaults{}, nodeID: air.Defaults_TypeID},
+		"MStackingRoot":     {proto: MStackingRoot{}, nodeID: air.StackingRoot_TypeID, subs: map[string]string{"a": "MStackingA", "aWithDefault": "MStackingA"}},
+		"MStackingA":        {proto: MStackingA{}, nodeID: air.StackingA_TypeID, subs: map[string]string{"b": "MStackingB"}},
+		"MStackingB":        {proto: MStackingB{}, nodeID: air.StackingB_TypeID},
+		"MHoldsText":        {proto: MHoldsText{}, nodeID: air.HoldsText_TypeID},
+		"MNester":           {proto: MNester{}, nodeID: air.Nester1Capn_TypeID},
+		"MRWTest":           {proto: MRWTest{}, nodeID: air.RWTestCapn_TypeID, subs: map[string]string{"nestMatrix": "MNester"}},
+		"MCounter":          {proto: MCounter{}, nodeID: air.Counter_TypeID},
+		"MBag":              {proto: MBag{}, nodeID: air.Bag_TypeID, subs: map[string]string{"counter": "MCounter"}},
+		"MVoidUnion":        {proto: MVoidUnion{}, nodeID: air.VoidUnion_TypeID},
+		"MHoth":             {proto: MHoth{}, nodeID: air.Hoth_TypeID, subs: map[string]string{"base": "MEchoBase"}},
+		"MEchoBase":         {proto: MEchoBase{}, nodeID: air.EchoBase_TypeID},
+		"MVerTwoTwoPlus":    {proto: MVerTwoTwoPlus{}, nodeID: air.VerTwoTwoPlus_TypeID, subs: map[string]string{"ptr1": "MVerTwoDataTwoPtr", "ptr2": "MVerTwoDataTwoPtr"}},
 		"MVerTwoDataTwoPtr": {proto: MVerTwoDataTwoPtr{}, nodeID: air.VerTwoDataTwoPtr_TypeID, subs: map[string]string{"ptr1": "MVerOneData", "ptr2": "MVerOneData"}},
 		"MVerOneData":       {proto: MVerOneData{}, nodeID: air.VerOneData_TypeID},
 	}
@@ -492,7 +535,7 @@ func airSubjects() []*subject {
 		}
 		return reflect.ValueOf(f(s)), nil
 	}
-	roots := []string{"MZ", "MZdate", "MPlaneBase", "MPlaneBaseRenamed", "MPlaneBaseEmbed", "MPlaneBaseEmbedPtr", "MPlaneBaseEmbedIgnored",
+	roots := []string{"MZ", "MZdate", "MPlaneBase", "MPlaneBaseRenamed", "MPlaneBaseEmbed", "MPlaneBaseEmbedPtr", "MPlaneBaseEmbedDeep", "MPlaneBaseEmbedDeep4", "MPlaneBaseEmbedDeep3", "MTwoPtrsOnVerTwoPtr", "MTwoPtrsOnVerTwoDataTwoPtr", "MPlaneBaseEmbedIgnored",
 		"MPlaneBaseConflict", "MPlaneBaseTaggedWins", "MPlaneBaseShadow", "MB737Named", "MAircraft", "MB737", "MZF64", "MDefaults",
 		"MStackingRoot", "MHoldsText", "MRWTest", "MCounter", "MBag", "MVoidUnion", "MHoth", "MVerTwoTwoPlus"}
 	var out []*subject
